@@ -433,6 +433,8 @@ breaking('DROP1-seed-C20-r8m3', {'C20': 'DROP1'}, patch='/verif/selftest/patches
 breaking('W1-seed-C02-r8m1', {'C02': 'W1'}, patch='/verif/selftest/patches/seed_C02_r8m1.diff')
 breaking('W1-seed-C02-r8m2', {'C02': 'W1'}, patch='/verif/selftest/patches/seed_C02_r8m2.diff')
 breaking('FW1-seed-C02-r8m3', {'C02': 'FW1'}, patch='/verif/selftest/patches/seed_C02_r8m3.diff')
+breaking('CJ1-seed-C14-r8m1', {'C14': 'CJ1'}, patch='/verif/selftest/patches/seed_C14_r8m1.diff')
+breaking('MR3-seed-C14-r8m2', {'C14': 'MR3'}, patch='/verif/selftest/patches/seed_C14_r8m2.diff')
 breaking('GI1-seed-C11-r7m1', {'C11': 'GI1'}, patch='/verif/selftest/patches/seed_C11_r7m1.diff')
 preserving('GI1-ok-indexed-by-position', ['C11'], edit=[('python/numqi/sim/_torch_utils.py', "                else: #custom measure\n                    info = dict(kind=kind, name=name, index=index, gate=gate)",
             "                else: #custom measure\n                    info = dict(kind=kind, name=name, index=index, gate=gate_index_list[ind0][0])")])
@@ -462,6 +464,9 @@ breaking('SELF1-identical-arms', {'C18': 'SELF1'}, edit=[('python/numqi/entangle
 preserving('UV1-ok-merely-unused-name', ['C12'], edit=[('python/numqi/channel/_internal.py',
            "    ret = np.array([\n        [[1,0], [0,np.sqrt(1-noise_rate)]],",
            "    tmp9 = np.sqrt(noise_rate)*np.sqrt(1-noise_rate)\n    ret = np.array([\n        [[1,0], [0,np.sqrt(1-noise_rate)]],")])
+preserving('CJ1-ok-vdot', ['C14'], edit=[('python/numqi/group/_internal.py',
+           "    if (np.linalg.norm(np.trace(np0, axis1=1, axis2=2))**2/np0.shape[0])<1.5: #character theory",
+           "    character = np.trace(np0, axis1=1, axis2=2)\n    if (np.vdot(character, character).real/np0.shape[0])<1.5: #character theory")])
 breaking('refix-get_gme_2qubit', {'C13': 'F2', 'C05': 'F2'}, patch_reverse='fix_78cd862.diff')
 
 # ---- behaviour-preserving edits for the second half of the round-3 rules
